@@ -484,7 +484,11 @@ func (c *ctx) scriptedDigests() {
 					e := withScript(sum, func() Event {
 						return doGenerateHOTP(fmt.Sprintf("C01/script/l%d/o%d/v%d/t%d/%d", size, off, v, top>>31, id), b32(key), ctr, P{Digits: d, Alg: alg})
 					})
-					// the harness claims HMAC(key, counter) = the scripted digest: that is what the library was given
+					// only if the library really obtained its digest from the scripted constructor (a refactoring may
+					// bypass the constructor table): then HMAC(key, counter) = the scripted digest is what it was given
+					if e.MacN < 1 || len(e.Mac) == 0 || string(e.Mac[0].Sum) != string(sum) {
+						continue
+					}
 					e.Orc = []Mac{{Alg: int(alg), Key: B(key), Msg: W64(ctr), Sum: B(sum)}}
 					c.rec.Emit(e)
 				}
